@@ -6,6 +6,7 @@ import time
 
 from vmon import dists as D
 from vmon import gens as G
+from vmon.gens import THOROUGH_SCALE as TS
 from vmon import oracles as O
 from vmon import search as S
 
@@ -143,6 +144,8 @@ def k_config(ctx, seqs, k, mode, n_cpu, compression, dist=None, maxcd=None, dela
             part[pid].append(i)
         canon = tuple(sorted(tuple(sorted(v)) for v in part.values()))
         ctx.nontriv(["partition", n, n_cpu, canon])
+        ctx.distinct("index_to_worker_partitions", [n, n_cpu, canon])
+        ctx.distinct("chunk_shapes", [n, n_cpu, sorted(len(v) for v in part.values())])
         ctx.count("worker_processes_seen", len(part))
 
 
@@ -244,7 +247,7 @@ def generate(tier, seed):
                     p["delay"] = 0.002
                 yield "config", p, n % 3 == 0 or rep == 0
     # single-process configuration sweep on larger inputs (compression only)
-    n_big = 200 if thorough else 16
+    n_big = 200 * TS if thorough else 16
     for i in range(n_big):
         seqs = G.repertoire(rng, rng.randint(30, 120))
         comp = COMPRESSIONS[i % len(COMPRESSIONS)]
@@ -254,7 +257,7 @@ def generate(tier, seed):
             p.update(dist="lev2", maxcd=["inf", 4][i % 2])
         yield "config", p, i < 6
     # max_returns
-    n_mr = 1500 if thorough else 90
+    n_mr = 1500 * TS if thorough else 90
     for i in range(n_mr):
         n = rng.randint(2, 40)
         pool = G.universe("AC", 4) if i % 2 else G.universe("ACD", 3)
